@@ -471,6 +471,31 @@ func (s *sim) pick() int {
 	return s.choose(s.nparked, nil)
 }
 
+// idleWait blocks the scheduler goroutine until some task parks (true) or nothing
+// can ever happen any more (false). While it blocks, every goroutine of the bubble
+// is durably blocked, so the bubble's fake clock jumps to the next timer: a task
+// sleeping in time.Sleep or waiting for a timer channel wakes up and parks.
+//
+//go:norace
+func (s *sim) idleWait() bool {
+	select {
+	case <-s.kick:
+	default:
+	}
+	tm := time.NewTimer(100000 * time.Hour)
+	woke := false
+	select {
+	case <-s.kick:
+		woke = true
+	case <-tm.C:
+	}
+	tm.Stop()
+	if woke {
+		s.wait()
+	}
+	return woke
+}
+
 //go:norace
 func (s *sim) allSpinning() bool {
 	for i := 0; i < s.nparked; i++ {
@@ -652,19 +677,7 @@ func Run(cfg Config, wait func(), root func()) *Report {
 			// Nobody is runnable. If some task waits for a timer of the bubble's
 			// fake clock, let the clock advance (it only does so when every
 			// goroutine, this one included, is durably blocked) and look again.
-			select {
-			case <-s.kick:
-			default:
-			}
-			tm := time.NewTimer(100000 * time.Hour)
-			woke := false
-			select {
-			case <-s.kick:
-				woke = true
-			case <-tm.C:
-			}
-			tm.Stop()
-			if woke {
+			if s.idleWait() {
 				continue
 			}
 			rep.Deadlock = true
@@ -678,6 +691,11 @@ func Run(cfg Config, wait func(), root func()) *Report {
 		// failed repeatedly with no real progress in between, no holder can ever
 		// release: a lock deadlock (lock-order inversion, lock held while blocked).
 		if s.spinFails > 3*s.nparked+8 && s.allSpinning() {
+			// unless a task that is asleep on the bubble's clock holds the lock: let time pass first
+			if s.idleWait() {
+				s.spinFails = 0
+				continue
+			}
 			rep.Deadlock = true
 			break
 		}
